@@ -151,7 +151,12 @@ func (s *sess) call(op Op) (res opResult, pv any) {
 			}
 			if res.err == nil {
 				var ns Store
-				ns, res.err = OpenStore(s.env, s.t.Cfg)
+				roots := s.t.Cfg.RootCids()
+				if op.Arg == 1 && len(roots) > 1 {
+					// the same roots in another order: resumption accepts them, the file keeps its own order
+					roots = append(roots[1:len(roots):len(roots)], roots[0])
+				}
+				ns, res.err = OpenStoreRoots(s.env, s.t.Cfg, roots)
 				sim.CurrentFS = s.env.FS
 				if res.err == nil {
 					s.store = ns
